@@ -684,9 +684,175 @@ def solver_seam_check(sp, rng, rep, n_points=2, points=None):
                 fails.append({"what": "SciPy constraint Jacobian is not the derivative of the constraint function", "index": i,
                               "sense": c.sense, "constraint": desc["constraints"][i][0][:300], "variables": names,
                               "jac": [float(a) for a in j], "want": [sign * g for g in grad], "problem": desc, "point": pt})
+                if sp.get("fd"):
+                    with warnings.catch_warnings(), np.errstate(all="ignore"):
+                        warnings.simplefilter("ignore")
+                        fails[-1].update({"fd": True, "finite_differences_of_fun": [float(_fd4(d["fun"], xvec, k)) for k in range(len(names))]})
                 continue
+            if sp.get("fd"):
+                # the dict judged against ITSELF: jac = 4th-order central differences of the `fun` entry of the same dict
+                with warnings.catch_warnings(), np.errstate(all="ignore"):
+                    warnings.simplefilter("ignore")
+                    fd = [_fd4(d["fun"], xvec, k) for k in range(len(names))]
+                rep.histogram["seam:fd-of-fun"] = rep.histogram.get("seam:fd-of-fun", 0) + 1
+                sc = max(1.0, max(abs(b) for b in fd))
+                if any(not oracle.close(a, b, 1e-4, 1e-5 * sc) for a, b in zip(j, fd)):
+                    fails.append({"what": "SciPy constraint Jacobian is not the derivative of the `fun` of the same dict (finite differences of fun)",
+                                  "index": i, "sense": c.sense, "constraint": desc["constraints"][i][0][:300], "variables": names,
+                                  "jac": [float(a) for a in j], "finite_differences_of_fun": [float(b) for b in fd], "fd": True,
+                                  "problem": desc, "point": pt})
+                    continue
             probes.append((c, variables, dict(pt), f, j))
     return fails[:3], probes
+
+
+# ------------------------------------------------------------------ reduction nodes on the RIGHT of a subtraction
+#
+# `K - f <= r`, `K - f >= r`, `(K - f).eq(r)`, `r >= K - f`, `r <= K - f`: f a vectorised reduction node of every kind, K a
+# Python / NumPy number or a Constant, the difference optionally wrapped in further ± constants / scalings / a second
+# reflection.  d(K - f) = -df: whatever looks "through" the constants to reach the reduction must keep the sign.
+
+REFL_UNARY = ["sin", "cos", "exp", "tanh", "sinh", "cosh", "abs_", "log", "sqrt"]
+REFL_POS = {"log", "sqrt", "pow1.5", "pow-1", "l2"}
+REFL_REDS = ["pow2", "pow3", "pow4", "pow1.5", "pow-1"] + REFL_UNARY + ["sum", "lin", "rlin", "dot", "self", "l2", "l1", "qf", "esum", "terms",
+                                                                          "msum", "mesum", "mfro"]
+REFL_FORMS = ["le", "ge", "eq", "rle", "rge"]
+REFL_WRAPS = ["id", "id", "+c", "c+", "-c", "c-", "s*", "*s", "neg", "half", "k-sf", "k-(f+c)", "k-(c+f)", "(c+k)-f", "c-(c-)", "+var", "inner-neg"]
+
+
+def _refl_number(rng, v):
+    from optyx.core.expressions import Constant
+    t = rng.choice(["int", "float", "float", "np.float64", "np.int64", "np.float32", "Constant"])
+    if t in ("int", "np.int64"):
+        v = float(int(v)) if int(v) != 0 else 3.0
+    return {"int": lambda: int(v), "float": lambda: float(v), "np.float64": lambda: np.float64(v), "np.int64": lambda: np.int64(int(v)),
+            "np.float32": lambda: np.float32(v), "Constant": lambda: Constant(float(v))}[t]()
+
+
+def _refl_reduction(rng, kind, vecs, mats):
+    """one reduction node of the given kind over a (view of a) vector / matrix of the problem"""
+    import optyx
+    from optyx.core import functions as F
+    vv = rng.choice(vecs)
+    n = len(vv)
+    view = vv if (n <= 3 or rng.random() < 0.5) else rng.choice([vv[1:], vv[::2], vv[0:n - 1], vv[::-1]])
+    k = len(view)
+
+    def coefs(m=None):
+        return np.array([rng.choice([1.0, 2.0, 3.0, -2.0, 0.5, -1.0, 4.0]) for _ in range(m or k)])
+    if kind.startswith("pow"):
+        return (view ** float(kind[3:])).sum() if kind in ("pow1.5", "pow-1") else (view ** int(kind[3:])).sum()
+    if kind in REFL_UNARY:
+        return getattr(F, kind)(view).sum()
+    if kind == "sum":
+        return view.sum()
+    if kind == "lin":
+        return coefs() @ view
+    if kind == "rlin":
+        return view @ coefs() if hasattr(view, "__matmul__") else view.dot(coefs())
+    if kind == "dot":
+        w = rng.choice(vecs)
+        m_ = min(len(w), k)
+        return view[0:m_].dot(w[0:m_])
+    if kind == "self":
+        return view.dot(view)
+    if kind == "l2":
+        return view.norm()
+    if kind == "l1":
+        return view.norm(1)
+    if kind == "qf":
+        return optyx.core.matrices.QuadraticForm(view, np.array([coefs() for _ in range(k)]))
+    if kind == "esum":
+        return (2 * view - 1).sum()
+    if kind == "terms":
+        return (view * view * coefs()[0]).sum() if rng.random() < 0.5 else (view * coefs()).sum()
+    m = rng.choice(mats)
+    mview = rng.choice([m, m.T, m[0:1, :]])
+    if kind == "msum":
+        return mview.sum()
+    if kind == "mesum":
+        return (mview * mview).sum() if rng.random() < 0.5 else (2 * mview + 1).sum()
+    return m.norm() if hasattr(m, "norm") else (m * m).sum()
+
+
+def gen_reflected_problem(rng, kinds=None):
+    """a small NLP whose constraints all put a reduction node on the RIGHT of a subtraction (every sense, both comparison
+    directions, numeric kinds of K, wrappers); sp["positive"]: the probe points must be positive (log / sqrt / fractional powers)"""
+    import optyx
+
+    vecs = [optyx.VectorVariable(nm, rng.choice([2, 3, 4, 5, 11])) for nm in rng.sample(["x", "w", "q2"], rng.randint(1, 2))]
+    mats = [optyx.MatrixVariable("M", rng.choice([1, 2]), rng.choice([2, 3]))]
+    y = optyx.Variable("y")
+    kinds = list(kinds or rng.sample(REFL_REDS, rng.randint(3, 5)))
+    cons, shapes = [], []
+    positive = False
+    for kind in kinds:
+        f = _refl_reduction(rng, kind, vecs, mats)
+        positive = positive or kind in REFL_POS
+        K = _refl_number(rng, rng.choice([6.0, 2.0, 25.0, -3.0, 0.5, 1.0, 4.0, 0.0]))
+        c_ = _refl_number(rng, rng.choice([1.0, -2.0, 3.0, 0.5, 5.0]))
+        s_ = rng.choice([2.0, -1.0, 0.5, -3.0, 4, 7.0])
+        wrap = rng.choice(REFL_WRAPS)
+        e = {"id": lambda: K - f, "+c": lambda: (K - f) + c_, "c+": lambda: c_ + (K - f), "-c": lambda: (K - f) - c_,
+             "c-": lambda: c_ - (K - f), "s*": lambda: s_ * (K - f), "*s": lambda: (K - f) * s_, "neg": lambda: -(K - f),
+             "half": lambda: (K - f) / 2, "k-sf": lambda: K - s_ * f, "k-(f+c)": lambda: K - (f + c_), "k-(c+f)": lambda: K - (c_ + f),
+             "(c+k)-f": lambda: (c_ + 1.0) - f - 2, "c-(c-)": lambda: c_ - (1.5 - (K - f)), "+var": lambda: (K - f) + s_ * y,
+             "inner-neg": lambda: K - (-f)}[wrap]()
+        r = _refl_number(rng, rng.choice([0.0, 1.0, -1.0, 3.0, 3.5, -2.0]))
+        form = rng.choice(REFL_FORMS)
+        if form in ("rle", "rge") and not isinstance(r, (int, float)):
+            r = float(getattr(r, "value", r))           # a plain number on the left: the reflected comparison of the expression decides
+        c = {"le": lambda: e <= r, "ge": lambda: e >= r, "eq": lambda: e.eq(r), "rle": lambda: r <= e, "rge": lambda: r >= e}[form]()
+        cons.append(c)
+        shapes.append(f"{kind}/{wrap}/{form}")
+    allv = [v for vv in vecs for v in vv] + [v for m in mats for row in m._variables for v in row] + [y]
+    obj = y * y
+    for vv in vecs:
+        obj = obj + vv.dot(vv)
+    for m in mats:
+        obj = obj + (m * m).sum()
+    prob = optyx.Problem()
+    (prob.maximize if rng.random() < 0.2 else prob.minimize)(obj)
+    for c in cons:
+        prob.subject_to(c)
+    return {"problem": prob, "constraints": cons, "vars": allv, "names": sorted(v.name for v in allv), "fd": True, "positive": positive,
+            "shapes": shapes, "method": rng.choice(["SLSQP", "SLSQP", "trust-constr"])}
+
+
+def reflected_points(sp, rng, n_points):
+    """well-conditioned probe points: |value| in [1/2, 5/4] (dyadic), positive when a log / sqrt / fractional power is present"""
+    return [{nm: (rng.randint(4, 10) / 8) * (1.0 if sp.get("positive") or rng.random() < 0.5 else -1.0) for nm in sp["names"]}
+            for _ in range(n_points)]
+
+
+def reflected_reduction_family(rng, rep, n_problems, n_points=2):
+    """every reduction kind at least once per run on the right of a subtraction; fun = ±(lhs - rhs), jac = dual-number derivative of
+    lhs - rhs AND finite differences of the dict's own fun, for all three senses"""
+    from optyx.constraints import Constraint
+    fails = []
+    order = list(REFL_REDS)
+    rng.shuffle(order)
+    for i in range(n_problems):
+        kinds = order[3 * i:3 * i + 3] if 3 * i < len(order) else None
+        try:
+            sp = gen_reflected_problem(rng, kinds=kinds)
+        except (TypeError, ValueError, AttributeError) as ex:
+            rep.skipped["reflected:not-constructible:" + type(ex).__name__] = rep.skipped.get("reflected:not-constructible:" + type(ex).__name__, 0) + 1
+            continue
+        if not all(isinstance(c, Constraint) for c in sp["constraints"]):
+            rep.skipped["reflected:no-constraint"] = rep.skipped.get("reflected:no-constraint", 0) + 1
+            continue
+        fs, _p = solver_seam_check(sp, rng, rep, points=reflected_points(sp, rng, n_points))
+        for sh in sp["shapes"]:
+            rep.histogram["reflected:" + sh.split("/")[2]] = rep.histogram.get("reflected:" + sh.split("/")[2], 0) + 1
+            rep.nontrivial.add(("reflected",) + tuple(sh.split("/")))
+        for f in fs:
+            f["family"] = "reduction on the right of a subtraction"
+            f["refl_shape"] = sp["shapes"][f["index"]] if "index" in f else None
+        fails.extend(fs[:1])
+        if len(fails) >= 3:
+            break
+    return fails
 
 
 def gen_swap_history(rng):
@@ -1212,7 +1378,10 @@ def run(ctx) -> core.Report:
                            "created, probed at seeded dyadic points; numeric operand kinds (Python int / float / bool, NumPy scalars and "
                            "0-d / 1-d / 2-d arrays of every integer, unsigned, float and bool dtype at 0, 1 and the extremes) in both operand "
                            "positions against their mathematical value; then whole problems (vectors of >= 11 elements, digit-bearing names, "
-                           "constraints over strict subsets of the variables with unequal partials, linear and nonlinear) whose dicts are "
+                           "constraints over strict subsets of the variables with unequal partials, linear and nonlinear; problems whose constraints put every "
+                           "kind of vector / matrix reduction node on the RIGHT of a subtraction — K - f <= r, K - f >= r, (K - f).eq(r), r >= K - f, r <= K - f, "
+                           "K a Python / NumPy number or Constant, wrapped in further ± constants, scalings, a second reflection — with jac also judged "
+                           "against finite differences of the fun of the same dict) whose dicts are "
                            "captured at the scipy.optimize.minimize seam and checked against dual-number derivatives; histories in which the objective is "
                            "replaced by one over a different variable set of the same size between solves; models whose constraint bodies contain scalar Parameters "
                            "(Parameter on either side of * + - / around vector / matrix reductions, nested under ±const, k·, unary minus; elements of a "
@@ -1399,6 +1568,9 @@ def run(ctx) -> core.Report:
             rep.oracle_failures.extend(fs[:1])
             n_bad += 1
 
+    # --- reduction nodes on the RIGHT of a subtraction (K - f ⋈ r, r ⋈ K - f, wrappers), every reduction kind × sense
+    rep.oracle_failures.extend(reflected_reduction_family(rng, rep, 200 if thorough else 60, n_points=3 if thorough else 2))
+
     # --- whole problems through the solver seam: constraints over strict subsets of the problem's variables
     n_prob = 160 if thorough else 45
     for _ in range(n_prob):
@@ -1495,6 +1667,9 @@ def search(ctx, rep):
         fails = param_history_check(gen_param_recipe(rng), rng, dummy)
         if fails:
             return fails[0]
+    fails = reflected_reduction_family(rng, dummy, 120, n_points=3)
+    if fails:
+        return fails[0]
     for _ in range(150):
         fails, _p = solver_seam_check(gen_solver_problem(rng), rng, dummy, n_points=2)
         if fails:
@@ -1546,6 +1721,7 @@ def replay(payload) -> bool:
         return not fs
     if "problem" in f:
         sp = rebuild_problem(f["problem"])
+        sp["fd"] = bool(f.get("fd"))
         pt = {k: float(v) for k, v in f["point"].items()} if "point" in f else None
         fails, _p = solver_seam_check(sp, core.Rng(0), core.Report(), points=[pt] if pt else None)
         for x in fails:
